@@ -534,6 +534,21 @@ namespace Clipper2Lib
       if (scale_y == 0) scale_y = 1.0;
     }
 
+    if constexpr (std::is_integral_v<T1>)
+    {
+      // same range test as in ScalePaths (below)
+      RectD r = GetBounds<double, T2>(path);
+      if ((r.left * scale_x) < min_coord ||
+        (r.right * scale_x) > max_coord ||
+        (r.top * scale_y) < min_coord ||
+        (r.bottom * scale_y) > max_coord)
+      {
+        error_code |= range_error_i;
+        DoError(range_error_i);
+        return result; // empty path
+      }
+    }
+
     result.reserve(path.size());
 #ifdef USINGZ
     std::transform(path.begin(), path.end(), back_inserter(result),
